@@ -332,6 +332,52 @@ fn check(c: &Case, st: &mut Stats) -> Result<(), String> {
     Ok(())
 }
 
+// ---- conservation across very long trains into storages above 65535 bytes ----------------------
+
+fn check_huge(c: &super::c05::HugeCase, st: &mut Stats) -> Result<(), String> {
+    let (pk, carried) = super::c05::huge_frame(c);
+    let mut d = new_ledger_dec(1, 0, TableManager::all());
+    let lens = [c.storage as usize, c.storage as usize + 1];
+    for l in lens {
+        let _ = d.provision_storage(vec![0u8; l].into_boxed_slice());
+    }
+    let mut held: Vec<usize> = vec![];
+    for (i, p) in pk.iter().enumerate() {
+        d.memory.ledger.begin_call();
+        let r = call_decap(&mut d, p);
+        let mut returned = vec![];
+        match &r {
+            Err(pn) => return st.violation(&format!("panic {}", pn.site()), format!("huge storage {}: decap of packet {}/{} panicked: {}", c.storage, i + 1, pk.len(), pn.0)),
+            Ok(Ok((DecapStatus::CompletedPkt(b, _), _))) => returned.push(b.len()),
+            Ok(Err((DecapError::ErrorMemory(DecapMemoryError::StorageOverflow(b)), _))) | Ok(Err((DecapError::ErrorMemory(DecapMemoryError::BufferTooSmall(b)), _))) => returned.push(b.len()),
+            _ => {}
+        }
+        let out = sorted(d.memory.ledger.out_in_call.clone());
+        if out != sorted(returned.clone()) {
+            return st.violation("leak", format!("storage {} bytes, packet {}/{} ({} bytes carried so far of {}): decap -> {}; buffers taken out {:?}, returned {:?}", c.storage, i + 1, pk.len(), carried, carried, show_dec(&r), out, returned));
+        }
+        held.extend(returned);
+        st.class_if(matches!(r, Ok(Err(_))) && d.memory.ledger.took_in_call > 0, "error-after-taking-a-buffer");
+    }
+    let mut got = vec![];
+    if let Ok(Ok((_, b))) = crate::engine::guard(|| d.memory.inner.take_frag(5)) {
+        got.push(b.len());
+    }
+    while let Ok(Ok(b)) = crate::engine::guard(|| d.memory.inner.new_pdu()) {
+        got.push(b.len());
+    }
+    got.extend(held);
+    if sorted(got.clone()) != sorted(lens.to_vec()) {
+        return st.violation("drain", format!("storage {} bytes, {} fragments: provisioned {:?}, recovered {:?}", c.storage, pk.len(), lens, sorted(got)));
+    }
+    st.class_if(carried > 65535, "carried>65535");
+    if carried > 65535 {
+        st.nontrivial(hash_of(c));
+    }
+    st.sample(|| json!({"storage": c.storage, "fragments": pk.len(), "bytes_carried": carried}));
+    Ok(())
+}
+
 pub fn property() -> Property {
     Property {
         id: "C08",
@@ -341,6 +387,14 @@ pub fn property() -> Property {
             "an injected save_frag failure keeps the buffer in a quarantine list that counts as inside the memory (the trait error carries no buffer)",
         ],
         parts: vec![Box::new(GenPart {
+            name: "long-trains-huge-storage",
+            rule: "first + 10..40 intermediates of 3000..4094 bytes + end into storages of 65000..140000 bytes under the ledger (accumulated length beyond 16 bits): conservation after every call and at the final drain",
+            cases: (12_000, 300_000),
+            fuzz_decode: None,
+            strategy: super::c05::huge_strategy,
+            check: check_huge,
+            required_classes: &["carried>65535", "error-after-taking-a-buffer"],
+        }), Box::new(GenPart {
             name: "ledger-histories",
             rule: "see property rule",
             cases: (1_200_000, 24_000_000),
